@@ -4,6 +4,7 @@
 // loader (TraverseSchema), the datatype validators and the regular-expression engine (pattern facets) into the C01 / C18 workloads.
 #pragma once
 #include "worldgen.hpp"
+#include <cctype>
 #include "schemagen.hpp"
 
 namespace sim {
@@ -20,6 +21,16 @@ inline World makeSchemaWorld(Rng& r) {
           x = "<?xml version=\"1.0\"?>\n<" + q + (g.ns.empty() ? std::string() : " xmlns:" + g.prefix + "=\"" + g.ns + "\"") + " xmlns:xsi=\"http://www.w3.org/2001/XMLSchema-instance\">" + SchemaGen::esc(vals[r.below(vals.size())]) + "</" + q + ">\n"; } }
     std::string hint = g.ns.empty() ? " xsi:noNamespaceSchemaLocation=\"" + g.file + "\"" : " xsi:schemaLocation=\"" + g.ns + " " + g.file + "\"";
     if (x.find("chemaLocation=") == std::string::npos) { size_t at = x.find(" xmlns:xsi="); if (at != std::string::npos) x.insert(at, hint); }
+    // a quarter of the worlds: xsi:type on about half of the start tags (whatever the declared type): the xsi:type bookkeeping of scanner and validator, also
+    // for elements that are never validated (skipped by a wildcard, or schema processing without validation)
+    if (r.chance(1, 4)) { std::string y; bool root = true; for (size_t i = 0; i < x.size(); i++) { y += x[i];
+            if (x[i] == '<' && i + 1 < x.size() && (isalpha((unsigned char)x[i + 1]) || x[i + 1] == '_')) { size_t e = i + 1; while (e < x.size() && !isspace((unsigned char)x[e]) && x[e] != '>' && x[e] != '/') e++;
+                size_t close = x.find('>', e); bool has = close != std::string::npos && x.substr(e, close - e).find("xsi:type=") != std::string::npos;
+                y.append(x, i + 1, e - i - 1); i = e - 1; if (root) { if (x.find("xmlns:xs=") == std::string::npos) y += " xmlns:xs=\"http://www.w3.org/2001/XMLSchema\""; root = false; } if (!has && r.coin()) y += " xsi:type=\"xs:string\""; } }
+        x.swap(y); }
+    // an eighth of the worlds: the instance sits 30-70 levels deep inside plain elements that no grammar knows (scanner state that is sized per nesting depth)
+    if (r.chance(1, 8)) { size_t decl = x.find("?>"); size_t at = decl == std::string::npos ? 0 : decl + 2; int n = r.range(30, 70); std::string open, close; for (int i = 0; i < n; i++) { open += "<n" + std::to_string(i % 7) + ">"; close = "</n" + std::to_string(i % 7) + ">" + close; }
+        size_t end = x.find_last_of('>'); if (end != std::string::npos) { x.insert(end + 1, close); x.insert(at, "\n" + open); } }
     auto add = [&](const std::string& name, const char* role, const std::string& bytes) { Resource res; res.name = name; res.role = role; res.enc = "UTF-8"; res.core = bytes; res.expand(); res.rootEnd = bytes.size(); w.res.push_back(res); };
     add("doc.xml", "doc", x); for (auto& s : gs) add(s.file, "schema", s.text);
     w.usesNS = true; return w;
